@@ -22,7 +22,11 @@ RULE = ("Grouping: Hypothesis-generated qubit operators (1-6 qubits, 1-25 distin
         "non-trivial = >=2 groups. Histograms: counts (ints 0..10^6, zeros allowed, total>0) or probabilities (normalised floats), bitstring "
         "length 1-100 (<=62 where resampling converts to int64), 1-40 outcomes, msq_first on/off, index sets (empty, all, arbitrary), expected-outcome "
         "dictionaries (matching / non-matching), split index lists, shot numbers 1..10^6; non-trivial = >=3 outcomes and a non-empty index set "
-        "(aggregation: >=2 histograms sharing a key; resampling: >=2 outcomes). Oracle = direct dictionary model (exact integer arithmetic for "
+        "(aggregation: >=2 histograms sharing a key; resampling: >=2 outcomes). histogram_history: 2-4 Histograms built from the same outcomes "
+        "dictionary object or from each other's .counts, then <=6/12 steps of +=, +, aggregate_histograms, remove_qubit_indices, post_select, resample, "
+        "further constructions; after every step every live histogram and the caller's dictionaries are compared with the model; non-trivial = >=2 steps "
+        "and >=1 in-place operation on a histogram sharing its source. resample_chunks: sweep of shot numbers 10^7-1, 10^7, 10^7+1 (thorough also 2*10^7, "
+        "3*10^7+5) around the sampling chunk size, exact total, support, 6.5 sigma band. Oracle = direct dictionary model (exact integer arithmetic for "
         "counts, Fraction-free float sums compared to 1e-12 relative for probabilities). Distinct = distinct canonical JSON of the case.")
 ASSUMPTIONS = ["Histogram construction from probabilities with n_shots>0 rounds every entry (documented design); it is not among the operations the "
                "property lists and is only labelled, not held to exact conservation",
@@ -472,3 +476,195 @@ def histogram(ctx):
         return len(h["out"]) >= 3, hist_labels(h) | {lab}
 
     ctx.search("construct", build_cases(), body_build, frac=0.08)
+
+
+# ------------------------------------------------------------------------------------------------ aliasing histories
+
+@st.composite
+def hist_histories(draw, max_ops):
+    L = draw(st.integers(1, 5))
+    pool = draw(st.lists(st.text("01", min_size=L, max_size=L), min_size=1, max_size=min(2 ** L, 6), unique=True))
+
+    def counts():
+        keys = draw(st.lists(st.sampled_from(pool), min_size=1, max_size=len(pool), unique=True))
+        vals = [draw(st.one_of(st.integers(0, 9), st.integers(1, 10**5))) for _ in keys]
+        if sum(vals) == 0:
+            vals[0] = 1
+        return dict(zip(keys, vals))
+    dicts = [counts() for _ in range(draw(st.integers(1, 2)))]
+    build = [{"src": "dict", "i": draw(st.integers(0, len(dicts) - 1))} for _ in range(draw(st.integers(2, 3)))]
+    if draw(st.booleans()):
+        build.append({"src": "counts", "i": draw(st.integers(0, len(build) - 1))})
+    ops = []
+    for _ in range(draw(st.integers(2, max_ops))):
+        o = draw(st.sampled_from(["iadd", "iadd", "iadd", "add", "agg", "remove", "post_select", "resample", "new_dict", "new_counts"]))
+        rec = {"op": o, "a": draw(st.integers(0, 7)), "b": draw(st.integers(0, 7)), "c": draw(st.integers(0, 7))}
+        if o == "remove":
+            rec["idx"] = draw(st.lists(st.integers(0, L - 1), unique=True, max_size=2))
+        elif o == "post_select":
+            rec["sel"] = {str(i): draw(st.sampled_from("01")) for i in draw(st.lists(st.integers(0, L - 1), unique=True, min_size=1, max_size=2))}
+        elif o == "resample":
+            rec["n"] = draw(st.integers(1, 200))
+        ops.append(rec)
+    return {"L": L, "dicts": dicts, "build": build, "ops": ops}
+
+
+@part("histogram_history", quick=600, thorough=30000)
+def histogram_history(ctx):
+    """Several Histograms built from the SAME outcomes dictionary object (and from each other's .counts), then sequences of
+    +=, +, aggregate_histograms, remove_qubit_indices, post_select, resample: after every step every live histogram and the
+    caller's dictionaries must equal the dictionary model (the caller's dictionaries never change; a histogram changes only as
+    the target of its own in-place operation)."""
+    from tangelo.toolboxes.post_processing.histogram import Histogram, aggregate_histograms
+
+    def nz(d):
+        return {k: v for k, v in d.items() if v != 0}
+
+    def body(case):
+        raw = [dict(d) for d in case["dicts"]]            # the caller's dictionaries (handed over as they are)
+        orig = [dict(d) for d in case["dicts"]]
+        H, M, src = [], [], []
+
+        def new_hist(obj, model, origin):
+            H.append(obj)
+            M.append(dict(model))
+            src.append(origin)
+
+        def verify(what, target=None):
+            for i, (r, o) in enumerate(zip(raw, orig)):
+                if r != o:
+                    raise Fail(f"{what}: the caller's outcomes dictionary #{i} changed from {o} to {r}", sig="histogram:history:caller-dict-mutated")
+            for j, (h, m) in enumerate(zip(H, M)):
+                if h.counts != m:
+                    role = "target" if j == target else "bystander"
+                    raise Fail(f"{what}: histogram #{j} ({role}, built from {src[j]}) holds {h.counts}, dictionary model {m}",
+                               sig=f"histogram:history:{role}-wrong")
+                tot = sum(m.values())
+                if h.n_shots != tot:
+                    raise Fail(f"{what}: histogram #{j} n_shots {h.n_shots}, model {tot}", sig="histogram:history:n_shots")
+
+        for b in case["build"]:
+            if b["src"] == "dict":
+                new_hist(Histogram(raw[b["i"]]), orig[b["i"]], f"dict#{b['i']}")
+            else:
+                j = b["i"] % len(H)
+                new_hist(Histogram(H[j].counts), M[j], f"hist#{j}.counts")
+        verify("construction")
+        labels = {f"hists-from-same-dict={max(sum(1 for s_ in src if s_ == f'dict#{i}') for i in range(len(raw)))}"}
+        if any(s_.startswith("hist#") for s_ in src):
+            labels.add("built-from-other-counts")
+        inplace_on_shared = 0
+        executed = 0
+        for k, rec in enumerate(case["ops"]):
+            o = rec["op"]
+            a, b, c = rec["a"] % len(H), rec["b"] % len(H), rec["c"] % len(H)
+            what = f"step {k} {o}"
+            target = None
+            if o in ("iadd", "add", "agg"):
+                ids = [a, b] if o != "agg" else [a, b, c]
+                if any(not M[i] for i in ids):
+                    continue
+                lens = {len(next(iter(M[i]))) for i in ids}
+                summed = {}
+                for i in ids:
+                    for key, v in M[i].items():
+                        summed[key] = summed.get(key, 0) + v
+                try:
+                    if o == "iadd":
+                        h = H[a]
+                        h += H[b]
+                        res = h
+                    elif o == "add":
+                        res = H[a] + H[b]
+                    else:
+                        res = aggregate_histograms(*[H[i] for i in ids])
+                except ValueError:
+                    if len(lens) > 1:        # documented: different bitstring lengths
+                        labels.add(o + ":refused-different-lengths")
+                        verify(what + " (refused)")
+                        continue
+                    raise
+                if len(lens) > 1:
+                    raise Fail(f"{what}: histograms with bitstring lengths {lens} were aggregated", sig="histogram:history:lengths-accepted")
+                if o == "iadd":
+                    H[a], M[a], target = res, nz(summed), a
+                    if sum(1 for s_ in src if s_ == src[a]) > 1 or src[a].startswith("hist#") or any(s_ == f"hist#{a}.counts" for s_ in src):
+                        inplace_on_shared += 1
+                        labels.add("in-place-on-histogram-sharing-its-source")
+                    if a == b:
+                        labels.add("iadd-self")
+                elif len(H) < 8:
+                    new_hist(res, nz(summed), o)
+                else:
+                    if res.counts != nz(summed):
+                        raise Fail(f"{what}: result {res.counts}, model {nz(summed)}", sig="histogram:history:result-wrong")
+            elif o == "remove":
+                if not M[a]:
+                    continue
+                cur = len(next(iter(M[a])))
+                idx = [i for i in rec["idx"] if i < cur]
+                H[a].remove_qubit_indices(*idx)
+                M[a], target = marginal(M[a], idx), a
+            elif o == "post_select":
+                if not M[a]:
+                    continue
+                cur = len(next(iter(M[a])))
+                sel = {int(i): v for i, v in rec["sel"].items() if int(i) < cur}
+                if not sel:
+                    continue
+                H[a].post_select(dict(sel))
+                kept = {key: v for key, v in M[a].items() if all(key[i] == bit for i, bit in sel.items())}
+                M[a], target = marginal(kept, list(sel)), a
+                labels.add("post_select:" + ("empty" if not M[a] else "kept"))
+            elif o == "resample":
+                if sum(M[a].values()) == 0 or len(H) >= 8 or len(next(iter(M[a]))) == 0:     # no qubit left: nothing to resample
+                    continue
+                ctx.np_seed({"case": case, "step": k})
+                r = H[a].resample(rec["n"])
+                if r.n_shots != rec["n"] or not set(r.counts) <= {key for key, v in M[a].items() if v > 0}:
+                    raise Fail(f"{what}: resample({rec['n']}) gave {r.counts} from {M[a]}", sig="histogram:history:resample")
+                new_hist(r, dict(r.counts), "resample")
+            elif o == "new_dict":
+                if len(H) >= 8:
+                    continue
+                i = rec["a"] % len(raw)
+                new_hist(Histogram(raw[i]), orig[i], f"dict#{i}")
+            elif o == "new_counts":
+                if len(H) >= 8 or not M[a]:
+                    continue
+                new_hist(Histogram(H[a].counts), M[a], f"hist#{a}.counts")
+            executed += 1
+            labels.add("op:" + o)
+            verify(what, target)
+        return executed >= 2 and inplace_on_shared >= 1, labels
+
+    ctx.search("histogram_history", hist_histories(6 if ctx.tier == "quick" else 12), body)
+
+
+# ------------------------------------------------------------------------------------------------ resampling chunk boundary
+
+@part("resample_chunks", quick=1, thorough=1)
+def resample_chunks(ctx):
+    """get_resampled_frequencies draws its samples in chunks of 10**7: shot numbers at and around the multiples of the chunk
+    size must give exactly n shots on the support, within a 6.5 sigma band of the source frequencies (numpy RNG pinned)."""
+    from tangelo.toolboxes.post_processing.bootstrapping import get_resampled_frequencies
+    shots = [10**7 - 1, 10**7, 10**7 + 1] if ctx.tier == "quick" else [10**7 - 1, 10**7, 10**7 + 1, 2 * 10**7, 3 * 10**7 + 5]
+    cases = [{"freqs": {"01": 0.75, "10": 0.25}, "n": s} for s in shots] + [{"freqs": {"1": 1.0}, "n": 10**7}]
+
+    def body(case):
+        f, n = case["freqs"], case["n"]
+        ctx.np_seed(case)
+        out = get_resampled_frequencies(dict(f), n)
+        if not set(out) <= set(f):
+            raise Fail(f"n={n}: outcomes {sorted(set(out) - set(f))} outside the support", sig="get_resampled_frequencies:chunk-boundary:support")
+        cnt = {k: v * n for k, v in out.items()}
+        tot = sum(round(c) for c in cnt.values())
+        if any(abs(c - round(c)) > 1e-3 for c in cnt.values()) or tot != n:
+            raise Fail(f"n={n}: resampled frequencies {out} hold {tot} shots (sum of frequencies {math.fsum(out.values())})",
+                       sig="get_resampled_frequencies:chunk-boundary:total")
+        for k, p in f.items():
+            if abs(out.get(k, 0.0) - p) > 6.5 * math.sqrt(p * (1 - p) / n) + 1.0 / n:
+                raise Fail(f"n={n}: frequency of {k} is {out.get(k, 0.0)}, source {p} (>6.5 sigma)", sig="get_resampled_frequencies:chunk-boundary:dist")
+        return True, (f"shots={n}", f"outcomes={len(f)}")
+
+    ctx.sweep("resample_chunks", cases, body)
